@@ -1,6 +1,6 @@
 CONSTANTS
   Mode = "c16"
-  NCols = 2
+  NCols = 1
   Window = FALSE
   Edge = 3
   NRows = 2
@@ -15,7 +15,7 @@ CONSTANTS
   MaxSeq = 1
   InitAll = 0
   Warm = 1
-  ClassSet = {"write", "import", "startrows", "startgroup", "page"}
+  ClassSet = {"import", "startrows", "startgroup", "page"}
   LeafKinds = {"row"}
 INIT Init
 NEXT Next
